@@ -188,6 +188,7 @@ func runCorpus(b *fw.B, rootsOnly bool) {
 			continue
 		}
 		b.Inc("types_exercised")
+		var used any // the object the previous case of this type was decoded into (possibly under another preset)
 		for _, ps := range presets {
 			S := schemas.New(ps.spec)
 			sc := e.Schema(S)
@@ -256,6 +257,31 @@ func runCorpus(b *fw.B, rootsOnly bool) {
 					b.Violate("length/FixedLength/"+e.Name, fmt.Sprintf("%s (%s preset): FixedLength reports %d, the schema says %d (0 = variable size)", e.Name, ps.name, fl, wantFixed), nil)
 					break
 				}
+				// decode once more, into an object that already holds another value of this type (objects are recycled as decode targets).
+				// Fixed-size types only: their Deserialize overwrites the whole value. The list types of zrnt append to what the target
+				// already holds (ztyp's dr.List callback pattern), i.e. they expect a fresh target; the property does not speak about that.
+				if used != nil && !rootsOnly && sc.IsFixed() {
+					ou := sszObj{ps.spec, used}
+					var uerr error
+					var uout []byte
+					if !b.NoPanic("decode-into-used/panic/"+e.Name, func() {
+						if uerr = ou.deserialize(enc); uerr == nil {
+							uout, uerr = ou.serialize()
+						}
+					}) {
+						break
+					}
+					if uerr != nil || !bytes.Equal(uout, enc) {
+						b.Violate("roundtrip/into-used-object/"+e.Name, fmt.Sprintf("%s (%s preset): decoding into an object that held another value of the type, then encoding, gives other bytes (%d instead of %d, err %v): %v", e.Name, ps.name, len(uout), len(enc), uerr, rs.DiffBytes(sc, enc, uout, 4)), map[string]any{"ssz_hex": fmt.Sprintf("%x", enc[:min(len(enc), 4000)])})
+						break
+					}
+					if ubl, _ := ou.lengths(); ubl != uint64(len(enc)) {
+						b.Violate("length/ByteLength-of-used-object/"+e.Name, fmt.Sprintf("%s (%s preset): ByteLength of a recycled object reports %d but %d bytes are written", e.Name, ps.name, ubl, len(enc)), nil)
+						break
+					}
+					b.Inc("roundtrips_into_used_objects")
+				}
+				used = o.obj
 				// text forms
 				corpusJSONMeaning(b, e, ps.name, sc, val, o)
 				if !corpusText(b, e, ps.name, ps.spec, enc, o) {
